@@ -29,12 +29,12 @@ VKINDS = ("float", "int", "datetime", "datetime_us", "timedelta")
 TEMPORAL = ("datetime", "datetime_us", "timedelta")
 MIN_INT = C.MIN_INT
 WOPS = ("sum", "mean", "min", "max"); SOPS = ("shift", "diff")
-SCOPE = {"quick": "K (kernel entry points numba.rolling_*, codes over {-1,0,1}; all of sum/mean/min/max x min_periods in {None,1..window} and shift/diff on every case): "
+SCOPE = {"quick": "K (kernel entry points numba.rolling_*, codes over {-1,0,1}; all of sum/mean/min/max x min_periods in {None,0..window} and shift/diff on every case): "
                   "(i) one group and two alternating groups, n<=7 rows x every value-null pattern x window 1..4 x masks {none, alternate, first row dropped} x {float, int>2^53, datetime64[ns] odd ns, datetime64[us], timedelta64[ns]}; "
                   "(ii) every interleaving n<=4 (float: x null patterns with <=2 nulls or all x window 1..3 x {no mask, every boolean mask (n<=3) / 3 designed masks}; other classes: <=1 null or all, 2 masks), "
                   "float n=5..7 (first code in {-1,0}) x window 2,3 x 2 null patterns x {no mask, alternate}; float values also as a 2-chunk Arrow array; window 32767 and 32768 on 32,900 rows. "
                   "P (public GroupBy methods, labels over {null,a,b}, one min_periods per case): every label sequence n<=4 (float values; n<=3 other classes) + 8 designed sequences of 5..7 rows x keys {float ndarray, str ndarray} "
-                  "x (window,min_periods) in {(1,None),(2,None),(2,1),(3,2),(3,None),(4,2)} x 4 (null pattern, mask) combinations x both output layouts (index_by_groups) x values as ndarray / Series with a non-default index; seeded random cases up to 24 rows",
+                  "x (window,min_periods) in {(1,None),(2,None),(2,1),(3,2),(3,None),(4,2),(2,0)} x 4 (null pattern, mask) combinations x both output layouts (index_by_groups) x values as ndarray / Series with a non-default index; seeded random cases up to 24 rows",
          "thorough": "as quick with (ii) every interleaving n<=5 for every class and float n<=7 with 4 null patterns, P every label sequence n<=5, random cases up to 64 rows"}
 RULE = "a case = (level K/P, codes or labels, key kind/layout, value class, value-null pattern, mask, window[, min_periods]); distinct = distinct canonical JSON; non-trivial = a group with more rows than the window, or two groups, or a null key, or a null value, or a mask"
 ASSUMPTIONS = ["A-real: the running sum by add/evict equals the window sum only in real arithmetic: sums/means are compared with tolerance 1e-9 (float), 2^-48 x window x max|v| (int64, temporal)",
@@ -97,8 +97,9 @@ def spec_roll(op, groups, vals, selected, window, min_periods):
             out[r] = prev if op == "shift" else (None if prev is None or vals[r] is None else vals[r] - prev)
             continue
         nn = [x for x in h[-window:] if x is not None]
-        if len(nn) < mp or not nn: out[r] = None
-        elif op == "sum": out[r] = sum(nn)
+        if len(nn) < mp: out[r] = None
+        elif op == "sum": out[r] = sum(nn) if nn else 0                         # min_periods=0: the sum of an empty window is the empty sum
+        elif not nn: out[r] = None                                              # mean / min / max of no value: null
         elif op == "mean": out[r] = sum(nn) / len(nn)
         else: out[r] = min(nn) if op == "min" else max(nn)
     return out
@@ -182,7 +183,7 @@ def _cases_k2(tier):
 
 
 DESIGNED_KEYS = [[0, 0, 0, 0, 0], [0, 1, 0, 1, 0, 1], [0, 0, 1, 1, 0, 0, 1], [0, None, 0, 1, None, 0, 0], [1, 0, 0, None, 0, 1, 0], [0, 0, 0, 0, 0, 0, 0], [None, 1, 1, 0, 1, 1, 1], [1, 1, 0, 0, 0, 1, 0]]
-WMP = [(1, None), (2, None), (2, 1), (3, 2), (3, None), (4, 2)]
+WMP = [(1, None), (2, None), (2, 1), (3, 2), (3, None), (4, 2), (2, 0)]
 
 
 def _cases_p(tier):
@@ -223,7 +224,7 @@ def random_case(rnd, tier):
         return {"lvl": "K", "codes": [rnd.choice([-1, 0, 1, 2]) for _ in range(n)], "vkind": vkind, "nullpat": pat, "mask": mask, "window": w, "vsplit": rnd.choice([None, rnd.randrange(0, n + 1)]) if vkind == "float" else None}
     kkind = rnd.choice(["float", "str"])
     return {"lvl": "P", "keys": [rnd.choice([None, 0, 1, 2]) for _ in range(n)], "kkind": kkind, "klayout": "contig", "vkind": vkind, "nullpat": pat,
-            "mask": mask, "window": w, "min_periods": rnd.choice([None, 1, rnd.randint(1, w)]), "ser": rnd.random() < 0.3}
+            "mask": mask, "window": w, "min_periods": rnd.choice([None, 1, rnd.randint(0, w)]), "ser": rnd.random() < 0.3}
 
 
 def nontrivial(case):
@@ -257,7 +258,7 @@ def _selected(case, n):
 def _mps(case, op):
     if op in SOPS: return [None]
     if "min_periods" in case: return [case["min_periods"]]
-    return [None] + list(range(1, case["window"] + 1))
+    return [None] + list(range(0, case["window"] + 1))
 
 
 def _check_kernel(sess, case):
